@@ -248,6 +248,8 @@ STATEMENTS = [
     'return g(*{va}, **MAP0)',
     'return g(*ITERABLE0, **{vk})',
     'return g(*GEN1, **{vk})',
+    # an expression nested deeper than the interpreter's recursion limit lets a visitor descend
+    'return g(*{va}, **{vk})' + ' + 1' * 1500,
     'return f(*{va}, extra0=1, **{vk})',
     # nested definitions with every kind of parameter
     'def nested1(p, *, kwreq):\n    return g(*{va}, **{vk})\nreturn nested1(1, kwreq=2)',
@@ -728,7 +730,16 @@ def check_sphinx(res, dotted, viol, fault):
     o = obj
     if isinstance(o, types.MethodType):
         o = o.__func__      # the hook documents the function behind a method
-    if isinstance(parent, type) and callable(o):
+    raw = None
+    if isinstance(parent, type):
+        for klass in parent.__mro__:
+            if dotted.rpartition('.')[2] in klass.__dict__:
+                raw = klass.__dict__[dotted.rpartition('.')[2]]
+                break
+    if isinstance(raw, staticmethod):
+        # called as it is written: nothing is bound away
+        res.counters['sphinx:staticmethod_member'] += 1
+    elif isinstance(parent, type) and callable(o):
         try:
             get = type(o).__get__
         except AttributeError:
